@@ -69,6 +69,7 @@ type Exec struct {
 	callCount map[string]int
 	binds map[string]Val
 	relyMode bool
+	resolveCache map[string]*ssa.Function
 	relMode bool
 	entryHeld map[string]bool
 	curOwner *Val
@@ -622,6 +623,7 @@ func (x *Exec) execInstr(s *State, in ssa.Instruction) {
 		s.top().regs[in] = Val{Typ: in.Type(), L: []string{m}}
 	case *ssa.MakeChan:
 		c := x.allocRef(s, "chan")
+		x.heapStore(s, "ghost:chan.cap", "Int", c, x.val(s, in.Size).L[0])
 		s.top().regs[in] = Val{Typ: in.Type(), L: []string{c}}
 	case *ssa.MakeSlice:
 		n := x.val(s, in.Len).L[0]
